@@ -373,9 +373,96 @@ def check_case(case, res, use_v=True, scale_guard=False, prop="C01"):
             cr.close()
 
 
+def table_leg(res, rng, n):
+    """operands behind an address computed at run time (a table in an array
+    map indexed by a register) of every width and signedness, and constants
+    of the upper half of the 64-bit range, in sums, shifts and comparisons;
+    run in the kernel, compared with Python's integers"""
+    from .. import kern, prog
+    from ebpfcat.arraymap import ArrayMap
+    from ebpfcat.xdp import XDP
+    import struct
+    M = (1 << 64) - 1
+    for _ in range(n):
+        fmt = rng.choice("bhiqBHIQ")
+        size = struct.calcsize(fmt)
+        vals = [rng.getrandbits(8 * size) for _ in range(8)]
+        vals[rng.randrange(8)] = (1 << (8 * size)) - 1      # -1 / all ones
+        vals[rng.randrange(8)] = 1 << (8 * size - 1)        # the minimum
+        idx = rng.randrange(8)
+        big = rng.choice([M, 1 << 63, 0xffffffff00000000,
+                          rng.getrandbits(64) | 1 << 63])
+        sh = rng.randint(1, 6)
+        m = ArrayMap()
+        ns = {"license": "GPL", "m": m, "tab": m.globalVar(f"8{fmt}"),
+              "idx": m.globalVar("I"), "u": m.globalVar("Q")}
+        for k in range(6):
+            ns[f"o{k}"] = m.globalVar("Q")
+
+        def program(self):
+            e = self
+            mm = getattr(e, "m" + fmt)
+            off = type(e).__dict__["tab"].fmt_addr(e)[1]
+            e.r3 = (e.idx & 7) * size       # (bounded for the verifier)
+            e.o0 = mm[e.r7 + e.r3 + off]
+            e.o1 = mm[e.r7 + e.r3 + off] + 1
+            e.o2 = mm[e.r7 + e.r3 + off] >> sh
+            with mm[e.r7 + e.r3 + off] < 0:
+                e.o3 = 1
+            e.o4 = (e.u + big) >> sh
+            with e.u + big > 5:
+                e.o5 = 1
+            e.r0 = 2
+            e.exit()
+        ns["program"] = program
+        desc = dict(table_leg=True, fmt=fmt, index=idx, value=vals[idx],
+                    constant=big, shift=sh)
+        with kern.session() as sess:
+            try:
+                e = type("VfTab", (XDP,), ns)()
+                ld = prog.Loaded(e, sess)
+                ld.load()
+            except Exception as ex:
+                res.count("table_leg_not_generated_or_loaded")
+                continue
+            try:
+                sv = [v - (1 << (8 * size)) if fmt.islower()
+                      and v >> (8 * size - 1) else v for v in vals]
+                e.tab = tuple(sv)
+                e.idx = idx
+                u = rng.choice([5, 0, rng.getrandbits(62)])
+                e.u = u
+                ld.run_k(bytes(64))
+                v = sv[idx]
+                sumbig = (u + big) & M
+                want = [v & M, (v + 1) & M,
+                        (v >> sh) & M if fmt.islower() else (v & M) >> sh,
+                        1 if v < 0 else 0, sumbig >> sh,
+                        1 if sumbig > 5 else 0]
+                got = [getattr(e, f"o{k}") for k in range(6)]
+                res.case([desc, u], nontrivial=True)
+                res.count("table_leg_programs")
+                for k, (g, w_) in enumerate(zip(got, want)):
+                    res.count("table_leg_results")
+                    if g != w_:
+                        what = ["table element", "element + 1",
+                                f"element >> {sh}", "element < 0",
+                                f"(u + {big:#x}) >> {sh}",
+                                f"u + {big:#x} > 5"][k]
+                        res.violation(
+                            "unexplained:computed-address-or-large-constant",
+                            f"{what}: program {g:#x}, exact {w_:#x} "
+                            f"(format {fmt}, element {v}, u {u})", case=desc)
+                        break
+            finally:
+                ld.close()
+
+
 def run_shard(params):
     res = Result()
     rng = random.Random(params["seed"] * 100003 + params["shard"])
+    table_leg(res, random.Random(rng.getrandbits(32)),
+              max(6, params["n"] // 40))
     use_v_every = 4
     for i in range(params["n"]):
         case = gen_case(rng, params["depth"])
@@ -401,5 +488,10 @@ def finalize(res, tier, seed):
 
 def replay(v):
     res = Result()
+    if v["case"].get("table_leg"):
+        # (the leg is re-run with fresh values: the witness names format,
+        # constant and shift, which is where the mechanisms live)
+        table_leg(res, random.Random(0), 200)
+        return res
     check_case(v["case"], res)
     return res
